@@ -34,12 +34,14 @@ int __real_accept(int, struct sockaddr*, socklen_t*);
 int __real_connect(int, const struct sockaddr*, socklen_t);
 int __real_setsockopt(int, int, int, const void*, socklen_t);
 ssize_t __real_read(int, void*, size_t);
+ssize_t __real_send(int, const void*, size_t, int);
 }
 
 namespace sim {
 
 static const int64_t kRealtimeOffset = 1700000000LL * 1000000000LL;
 static std::map<int, int64_t> g_rcvTimeout; // fd -> ns
+static std::map<int, int64_t> g_sndTimeout; // fd -> ns
 
 static inline void touch(const void* p) {
   // a synchronisation object living in freed memory becomes an ASan report
@@ -223,9 +225,56 @@ int __wrap_setsockopt(int fd, int level, int name, const void* val,
     // the real socket stays blocking-without-timeout: expiry is virtual
     return 0;
   }
-  if (sched::active() && level == SOL_SOCKET && name == SO_SNDTIMEO)
-    return 0;
+  if (sched::active() && level == SOL_SOCKET && name == SO_SNDTIMEO &&
+      len >= sizeof(struct timeval)) {
+    TsanIgnore ig;
+    const struct timeval* tv = (const struct timeval*)val;
+    g_sndTimeout[fd] = (int64_t)tv->tv_sec * 1000000000LL +
+        (int64_t)tv->tv_usec * 1000;
+    // a plan may ask for the smallest socket buffer the kernel allows, so
+    // that a reply of a few kilobytes already has to wait for its reader
+    if (R.plan.get("small_sndbuf", false).asBool()) {
+      int sz = 1;
+      __real_setsockopt(fd, SOL_SOCKET, SO_SNDBUF, &sz, sizeof sz);
+    }
+    return 0; // expiry is virtual
+  }
   return __real_setsockopt(fd, level, name, val, len);
+}
+
+// scheduled send on a socket: never blocks for real; a full socket buffer
+// makes the thread wait (in virtual time, up to SO_SNDTIMEO) for the reader
+ssize_t __wrap_send(int fd, const void* buf, size_t n, int flags) {
+  if (!sched::active() || g_bypass != 0 || !isSocketFd(fd))
+    return __real_send(fd, buf, n, flags);
+  for (;;) {
+    ssize_t r = __real_send(fd, buf, n, flags | MSG_DONTWAIT);
+    if (r >= 0 || (errno != EAGAIN && errno != EWOULDBLOCK))
+      return r;
+    int64_t deadline = -1;
+    {
+      TsanIgnore ig;
+      auto it = g_sndTimeout.find(fd);
+      if (it != g_sndTimeout.end() && it->second > 0)
+        deadline = R.now_ns + it->second;
+      fired("send-blocked");
+    }
+    bool ok = sched::waitIo(
+        [fd]() {
+          struct pollfd pf {
+            fd, POLLOUT, 0
+          };
+          return poll(&pf, 1, 0) > 0 &&
+              (pf.revents & (POLLOUT | POLLHUP | POLLERR));
+        },
+        deadline, "socket-send");
+    if (!ok) {
+      TsanIgnore ig;
+      fired("send-timeout");
+      errno = EAGAIN;
+      return -1;
+    }
+  }
 }
 
 } // extern "C"
